@@ -149,7 +149,7 @@ E["C14"] = dict(
          "unread rex depth options, quadratic regex memory).",
     tech="Lean 4 proof over a call graph regenerated from the source (translator, decide +kernel certificate) + depth-counter model; differential classification of real runs")
 E["C18"] = dict(
-    text="PARTIAL (sed.c modelled at command granularity; script-text compiler not modelled). Lean 4 theorems (Props/C18.lean, 44) about a reference sed executor transcribed from "
+    text="PARTIAL (the executor of sed.c is modelled at command granularity; since round 5 the script-text compiler is modelled character by character). Lean 4 theorems (Props/C18.lean, 44) about a reference sed executor transcribed from "
          "sed.c's exec loop (cycle structure, match_address range machine, n/N/D end-of-input rules, a/i/c queues, q, y, l, branching with fuel, do_subst generic in the matcher): "
          "range_spec (the a1_matched machine = the declarative POSIX range function for every address kind and line sequence) and its end-to-end form, subst_occurrence (N-th / all "
          "matches over the leftmost non-overlapping sequence for every matcher), the t-flag law, empty-regex reuse, hold-space algebra, frame lemmas, forward scripts never run out "
@@ -186,7 +186,7 @@ E["C04"] = dict(
          "One recorded finding (regex RS whose match can be extended across a read boundary).",
     tech="Lean 4 proof (chunk-independence by induction over chunk lists; regex mode partial under Stable) + schedule-independence oracle + differential correspondence")
 E["C09"] = dict(
-    text="PARTIAL (interleaving at API-call granularity, no threads). Lean 4 theorems (Props/C09.lean, 23) about a state-machine model of the embedding API (shared read-only "
+    text="PARTIAL (interleaving at API-call granularity; threads only through a ThreadSanitizer oracle with one interpreter per thread). Lean 4 theorems (Props/C09.lean, 23) about a state-machine model of the embedding API (shared read-only "
          "program + call-site cache; per-context run-time stack with stack_top, value heap with explicit reference counts, exit level, halt; open/call/loop/setgbl/getgbl/halt/close, "
          "clear/parse): noninterference (for any interleaving a context's observations equal those of its own ops run alone on a fresh interpreter; the only shared write, the "
          "call-site cache, is value-determined and idempotent), usable_after_failed_call (stack and exit level restored after EDIVBY0/ESTACK/EFUNNF/EARGTM at any depth; only exit/halt "
@@ -256,7 +256,7 @@ E["C06"] = dict(
          "(1.2M pairs quick, 15.8M thorough), plus ~, match(), gsub, split, regex FS at language level; a python leftmost-longest reference and engine agreement are the oracle, then the Lean "
          "matcher is compared with the reference. "
          "Added in the last round: all twelve named classes, word assertions (\\< \\> \\b \\B, with the machine-checked witness that the suffix theorem fails for them), NOTEOL, hex escapes, every {m,n} form, POSIX-invalid patterns both sides must reject, and six more API entry points per request.",
-    note="Trusted: the unverified ERE text parser in the driver (cross-checked by a python parser and glibc on every pair); ASCII case folding; submatch offsets not compared. One recorded finding "
+    note="Trusted: since round 5 tre-parse.c is transcribed and tied tree by tree; the older ERE text parser in the driver only gates which constructs the specification matcher covers (cross-checked by a python parser and glibc on every pair); ASCII case folding; submatch offsets not compared. One recorded finding "
          "(tre-empty-path-anchor: a nullable sub-expression is skipped along one fixed empty path whose ^/$ assertions it inherits; both engines).",
     tech="Lean 4 proof of a specification matcher (leftmost-longest soundness and completeness) + bounded-exhaustive correspondence with both TRE engines and glibc")
 
@@ -273,7 +273,7 @@ R5["C02"] = (("Props/C02.lean, 47 obligations", "Props/C02.lean, 69 obligations"
     "file or pipe read back inside the program and compared across hawk, gawk and mawk and the Lean interpreter (closes the round-4 miss as a class); all getline forms pairwise; output "
     "pipes, input pipes and read-back after close are inside the reference interpreter; theorems for the missing getline rows, EOF, strnum comparison with antisymmetry, output order "
     "across redirections, close/read-back specifications. The grid exposed the recorded finding print-redirection-after-low-precedence-member.")
-R5["C07"] = (("Props/C07.lean, 14", "Props/C07.lean, 32"),
+R5["C07"] = (("Props/C07.lean, 14", "Props/C07.lean, 35"),
     "Round 5: call frames (hawk_rtx_callfun/evalcall/run_block as holder operations; call_balanced, calls_are_histories), per-generation soundness AND completeness of the collector "
     "for arbitrary object graphs (ReachG; young_collect_complete/young_collect_sound), promotion, pressure/threshold counters, teardown from any invariant state; constants and the "
     "collector's phase skeleton regenerated from val.c on every run (extract/gc_const.py, consts_match_source); oracle-only call-frame family (direct call / hawk::call x by-value/by-reference "
